@@ -287,10 +287,20 @@ pub fn create_temp_db(
     dbs: &Arc<Databases>,
 ) -> Arc<Database> {
     let initial_db = HashMap::new();
+    // One more than the highest id in use: the number of databases is not unique once a restart
+    // has loaded only the databases that were snapshotted
+    let id = dbs
+        .map
+        .read()
+        .expect("could not get lock")
+        .values()
+        .map(|db| db.metadata.id + 1)
+        .max()
+        .unwrap_or(0);
     return Arc::new(Database::create_db_from_hash(
         name,
         initial_db,
-        DatabaseMataData::new(dbs.map.read().expect("could not get lock").len(), strategy),
+        DatabaseMataData::new(id, strategy),
     ));
 }
 
